@@ -1,6 +1,7 @@
 package main
 
 import (
+	"os/exec"
 	"flag"
 	"fmt"
 	"os"
@@ -28,6 +29,28 @@ func loadRepo(patterns []string) *Loaded {
 	t0 := time.Now()
 	cfg := &packages.Config{Mode: packages.LoadAllSyntax, Dir: repoRoot, BuildFlags: []string{"-tags=verif"},
 		Env: append(os.Environ(), "GOFLAGS=-mod=mod", "GOPROXY=off", "GOSUMDB=off", "GOTOOLCHAIN=local")}
+	for _, pt := range patterns {
+		if pt == "./io" || strings.HasPrefix(pt, "./io/...") || pt == "./io/..." {
+			// the io package depends on a cgo library that cannot be built here:
+			// its dependency is replaced by a mechanical stub (see stub.go)
+			cmd := exec.Command("go", "list", "-m", "-f", "{{.Dir}}", "gonum.org/v1/hdf5")
+			cmd.Dir = repoRoot
+			cmd.Env = cfg.Env
+			outb, lerr := cmd.Output()
+			if lerr != nil {
+				fatalf("cannot locate gonum.org/v1/hdf5: %v", lerr)
+			}
+			ov, serr := stubCgoPackage(strings.TrimSpace(string(outb)))
+			if serr != nil {
+				fatalf("stub of gonum.org/v1/hdf5: %v", serr)
+			}
+			cfg.Overlay = ov
+			// packages of the module cache are normally read through go's module
+			// index, which ignores overlays
+			cfg.Env = append(cfg.Env, "GODEBUG=goindex=0")
+			break
+		}
+	}
 	pkgs, err := packages.Load(cfg, patterns...)
 	if err != nil {
 		fatalf("load: %v", err)
@@ -41,6 +64,18 @@ func loadRepo(patterns []string) *Loaded {
 			}
 		}
 	})
+	if os.Getenv("OWVC_DEBUG") != "" {
+		packages.Visit(pkgs, nil, func(p *packages.Package) {
+			if p.IllTyped || len(p.Errors) > 0 {
+				fmt.Fprintln(os.Stderr, "illtyped:", p.PkgPath, len(p.Errors))
+				for i, e := range p.Errors {
+					if i < 5 {
+						fmt.Fprintln(os.Stderr, "   ", e)
+					}
+				}
+			}
+		})
+	}
 	if nerr > 0 {
 		fatalf("packages do not load")
 	}
